@@ -203,5 +203,6 @@ def run(ctx):
     direct(ctx)
     c14.packing(ctx)
     dtypes.dtype_folds(ctx)
+    blocks.packing_offsets(ctx)
     # the systems solved in strong form are A.strong_form(): its term (inverse mass matrix of (range, dual) times weak form) is C14's rule
     c14.homomorphism(ctx)
